@@ -3,7 +3,7 @@ C06, C07, C12, C15, C16, C17."""
 from itertools import combinations
 from .base import *
 from .cards import premise_layout, PC, BC, RANK_ENUM, SUIT_ENUM, accessor_dag, arr_of, describe_slots
-from ..evals import cell_table, cell_constants, cell_representatives, rep_of, CellsRefused, BitVec, b_deps, children, substitute, b_or, b_and, b_not
+from ..evals import cell_table, cell_table_cmp, cell_constants, cell_representatives, rep_of, CellsRefused, BitVec, b_deps, children, substitute, b_or, b_and, b_not
 from ..sym import mk_bin, mk_ite
 
 HRANK = "hand_rank::HandRank"
@@ -107,15 +107,21 @@ def check_C06(ctx):
         if res is TRUE:
             rep.ob("C06.self-consistent", "all values", True)
         else:
-            # fold over the cells of v
-            consts, _t = cell_constants_loose(res, "v")
+            # a comparison table over v is decided on its cells; anything else on all 65 536 values
             bad = None
             cnt = 0
-            for (lo, hi) in cell_representatives(consts, "u16"):
-                for x in {lo, hi}:
+            try:
+                cells_, _n = cell_table_cmp(pdb, res, "v", "u16")
+                for (lo, hi), val_, ident_ in cells_:
+                    cnt += 1
+                    if ident_ or cval(val_) != 1:
+                        bad = bad if bad is not None else lo
+            except CellsRefused:
+                for x in range(65536):
                     cnt += 1
                     if cval(ctx.fold(res, {"v": x})) != 1:
                         bad = bad if bad is not None else x
+            rep.evals(cnt)
             rep.ob("C06.self-consistent", "all values", bad is None, "HandRank::from(%s).is_a_valid_hand_rank() is false" % bad, pdb.where(kv))
     ctx.guard("C06.wiring", wiring)
 
@@ -131,7 +137,7 @@ def check_C06(ctx):
                 h = ctx.hand(path, n)
                 s_ = ctx.summ(key, [("r", h)], sty, opaque={kin})
                 x = s_.ret[2][0] if s_.ret[0] == "agg" else None
-                ok = x is not None and x[0] == "call" and x[1] == "fn:" + kin
+                ok = x is not None and x[0] == "call" and x[1] == "fn:" + kin and x[2][0] is h
                 if ok:
                     exp = substitute(frm, lambda nd: x if nd is v else None)
                     ok = exp is s_.ret
